@@ -63,6 +63,32 @@ int __wrap_nanosleep(const struct timespec *req, struct timespec *rem)
     virt_ns += ns;
     return 0;
 }
+/* select() with no descriptors is the sleep of builds that have neither clock_nanosleep nor nanosleep; Linux rewrites the time-out to the time not slept */
+#include <sys/select.h>
+int __real_select(int, fd_set *, fd_set *, fd_set *, struct timeval *);
+int __wrap_select(int n, fd_set *r, fd_set *w, fd_set *x, struct timeval *tv)
+{
+    unsigned long ns;
+    if (!counting || n != 0 || !tv) return __real_select(n, r, w, x, tv);
+    ns = (unsigned long)tv->tv_sec * 1000000000ul + (unsigned long)tv->tv_usec * 1000ul;
+    if (hit("select")) {
+        unsigned long slept = ns / 3 + (ns > 2000000 ? 123000 : 0), left = ns - slept;
+        if (sleep_left_ns && ns > sleep_left_ns) { left = sleep_left_ns; slept = ns - left; }
+        virt_ns += slept; tv->tv_sec = (time_t)(left / 1000000000ul); tv->tv_usec = (suseconds_t)(left % 1000000000ul / 1000ul);
+        errno = EINTR; return -1;
+    }
+    virt_ns += ns; tv->tv_sec = 0; tv->tv_usec = 0;
+    return 0;
+}
+/* the select-based sleep measures elapsed time with gettimeofday: it follows the virtual clock of the thread under test */
+#include <sys/time.h>
+int __real_gettimeofday(struct timeval *, void *);
+int __wrap_gettimeofday(struct timeval *tv, void *tz)
+{
+    int r = __real_gettimeofday(tv, tz);
+    if (counting && r == 0 && tv) { unsigned long us = (unsigned long)tv->tv_usec + virt_ns / 1000ul; tv->tv_sec += (time_t)(us / 1000000ul); tv->tv_usec = (suseconds_t)(us % 1000000ul); }
+    return r;
+}
 #define EINTR_WRAP(ret, name, proto, args) ret __real_##name proto; ret __wrap_##name proto { if (hit(#name)) { errno = EINTR; return -1; } return __real_##name args; }
 EINTR_WRAP(int, sem_wait, (sem_t *s), (s))
 EINTR_WRAP(int, poll, (struct pollfd *f, nfds_t n, int t), (f, n, t))
@@ -247,7 +273,9 @@ verif_private_netns();     hout_open(); p_libsys_init();
     }
     pairs = argc > 2 ? atoi(argv[2]) : 0;
     for (s = 0; s < NSC; s++) {
-        long n = run_one(s, -1, -1, base), k1, k2;
+        long n, k1, k2;
+        if (argc > 3 && strncmp(SC[s].name, argv[3], strlen(argv[3]))) continue;        /* optional scenario-name prefix */
+        n = run_one(s, -1, -1, base);
         hout_note("scenario %s: %ld blocking system call invocations; outcome: %s", SC[s].name, n, base);
         if (strstr(base, "EINTR-ERROR") || strstr(base, "setup-failed")) { char sg[96]; snprintf(sg, sizeof sg, "%s/fault-free-run-bad", SC[s].name); hout_viol("C19", sg, "", "scenario %s without injection gives: %s", SC[s].name, base); continue; }
         for (k1 = 0; k1 < n + 2; k1++) for (k2 = -1; k2 < (pairs ? n + 3 : 0); k2++) {
